@@ -109,6 +109,22 @@ def run(repo, coq):
     if len(re.findall(r'\bCCompiler\s*\{\s*executable\b', crs)) != 1 or not re.search(r'\bCCompiler\s*\{\s*executable\b', nb):
         raise RuntimeError('a CCompiler is built outside CCompiler::new (a caller could supply a digest taken at another time)')
     facts['digest'] = 'CCompiler::new, after wait_with_output()'
+    # the digest is the file's: no memo of digests by file identity between the file and CCompiler::new
+    if not re.search(r'let\s+digest\s*=\s*Digest::file\(executable\.clone\(\),\s*pool\)\.await\?;\s*Ok\(CCompiler\s*\{', nb):
+        raise RuntimeError('CCompiler::new does not build the CCompiler straight from Digest::file(executable)')
+    # ---- the rustc side (Model/RustToolchain.v)
+    rust = strip_comments(open(os.path.join(repo, 'src/compiler/rust.rs'), encoding='utf-8').read())
+    if not re.search(r'pub\s+struct\s+RustupProxy\s*\{\s*proxy_executable:\s*PathBuf,\s*\}', rust):
+        raise RuntimeError('RustupProxy carries more than the path of rustup: a proxy that remembers anything about a '
+                           'resolution is not what Model/RustToolchain.v describes (rustup is asked for every request)')
+    rb = fn_body(rust, r'fn\s+resolve_proxied_executable\s*\([^{;]*?\)\s*->\s*Pin<Box<dyn Future<Output = Result<\(PathBuf, FileTime\)>> \+ Send>>\s*\{',
+                 'RustupProxy::resolve_proxied_executable')
+    if len(re.findall(r'run_input_output\(child,\s*None\)', rb)) != 1 or re.search(r'\b(match|if)\b[^;{]*\bremembered\b', rb) \
+            or 'fs::metadata(proxied_compiler.as_path())' not in rb:
+        raise RuntimeError('resolve_proxied_executable no longer runs `rustup which rustc` and stats the answer unconditionally')
+    if not re.search(r'\(t\.is_file\(\)\s*\|\|\s*t\.is_symlink\(\)\s*&&\s*p\.is_file\(\)\)\s*&&\s*p\.extension\(\)', rust):
+        raise RuntimeError('Rust::new no longer hashes regular files AND links to regular files among <sysroot>/lib/*.so')
+    facts['rust'] = 'proxy asked per request; sysroot libs through links'
     gen = os.path.join(coq, 'theories', 'Gen')
     os.makedirs(gen, exist_ok=True)
     txt = ('(* GENERATED by translator/c12_window.py from src/server.rs, src/compiler/compiler.rs, src/compiler/c.rs — do not edit *)\n'
